@@ -416,6 +416,8 @@ struct SctpInner {
 
     // PR-SCTP: Advanced Peer Ack Point (RFC 3758)
     advanced_peer_ack_tsn: AtomicU32,
+    // Highest cumulative TSN the peer has acknowledged (our TSN space).
+    peer_cumulative_ack: AtomicU32,
     forward_tsn_pending: AtomicBool,
     forward_tsn_streams: Mutex<Vec<(u16, u16)>>,
     has_pr_sctp: AtomicBool,
@@ -853,6 +855,7 @@ impl SctpTransport {
             },
             inbound_streams: Mutex::new(HashMap::new()),
             advanced_peer_ack_tsn: AtomicU32::new(0),
+            peer_cumulative_ack: AtomicU32::new(0),
             forward_tsn_pending: AtomicBool::new(false),
             forward_tsn_streams: Mutex::new(Vec::new()),
             has_pr_sctp: AtomicBool::new(false),
@@ -1835,6 +1838,10 @@ impl SctpInner {
             self.next_tsn.load(Ordering::SeqCst).wrapping_sub(1),
             Ordering::SeqCst,
         );
+        self.peer_cumulative_ack.store(
+            self.next_tsn.load(Ordering::SeqCst).wrapping_sub(1),
+            Ordering::SeqCst,
+        );
 
         let channels_to_process = {
             let mut channels = self.data_channels.lock();
@@ -1881,6 +1888,13 @@ impl SctpInner {
             let num_gap_ack_blocks = buf.get_u16();
             let _num_duplicate_tsns = buf.get_u16();
             let old_rwnd = self.peer_rwnd.swap(a_rwnd, Ordering::SeqCst);
+            if tsn_gt(
+                cumulative_tsn_ack,
+                self.peer_cumulative_ack.load(Ordering::SeqCst),
+            ) {
+                self.peer_cumulative_ack
+                    .store(cumulative_tsn_ack, Ordering::SeqCst);
+            }
 
             // Log peer_rwnd to understand flow control
             if a_rwnd < 100000 {
@@ -2248,6 +2262,10 @@ impl SctpInner {
 
         *self.state.lock() = SctpState::Connected;
         self.advanced_peer_ack_tsn.store(
+            self.next_tsn.load(Ordering::SeqCst).wrapping_sub(1),
+            Ordering::SeqCst,
+        );
+        self.peer_cumulative_ack.store(
             self.next_tsn.load(Ordering::SeqCst).wrapping_sub(1),
             Ordering::SeqCst,
         );
@@ -3583,7 +3601,7 @@ impl SctpInner {
         }
 
         // Advance the advanced peer ack point past consecutive abandoned chunks
-        let last_sacked = self.cumulative_tsn_ack.load(Ordering::SeqCst);
+        let last_sacked = self.peer_cumulative_ack.load(Ordering::SeqCst);
         let mut advanced = self.advanced_peer_ack_tsn.load(Ordering::SeqCst);
         if tsn_gt(last_sacked, advanced) {
             advanced = last_sacked;
@@ -3646,7 +3664,7 @@ impl SctpInner {
 
     fn create_forward_tsn_chunk(&self) -> Option<Bytes> {
         let advanced = self.advanced_peer_ack_tsn.load(Ordering::SeqCst);
-        let last_sacked = self.cumulative_tsn_ack.load(Ordering::SeqCst);
+        let last_sacked = self.peer_cumulative_ack.load(Ordering::SeqCst);
         if !tsn_gt(advanced, last_sacked) {
             return None;
         }
